@@ -504,6 +504,10 @@ Section Client.
       let body := body_of_reader present rewindable data in
       if (0 <? d_size d) && (match body with BNil | BNoBody => true | BData _ _ => false end)
       then fail (size_invalid (s "content is empty but the descriptor has a size: "))
+      else if (0 <? d_size d) &&
+              (match body with BData b true => negb (blenZ b =? d_size d) | _ => false end)
+              (* req.GetBody != nil: the length is known *)
+      then fail (size_invalid (s "content length differs from the size in the descriptor: "))
       else
         let put := {| rq_method := MPut; rq_url := UDigest location (d_digest d);
                       rq_header := [(h_content_range, range_string 0 (d_size d));
